@@ -494,11 +494,12 @@ public:
 			setnan(NAN_TYPE_SIGNALLING);
 			return *this;
 		}
+#endif
+		// quiet NaNs propagate in both the quiet and the throwing configuration
 		if (isnan(NAN_TYPE_QUIET) || rhs.isnan(NAN_TYPE_QUIET)) {
 			setnan(NAN_TYPE_QUIET);
 			return *this;
 		}
-#endif
 		// normal + inf  = inf
 		// normal + -inf = -inf
 		// inf + normal = inf
@@ -568,11 +569,12 @@ public:
 			setnan(NAN_TYPE_SIGNALLING);
 			return *this;
 		}
+#endif
+		// quiet NaNs propagate in both the quiet and the throwing configuration
 		if (isnan(NAN_TYPE_QUIET) || rhs.isnan(NAN_TYPE_QUIET)) {
 			setnan(NAN_TYPE_QUIET);
 			return *this;
 		}
-#endif
 		//  inf * inf = inf
 		//  inf * -inf = -inf
 		// -inf * inf = -inf
